@@ -1,5 +1,6 @@
 import MidnightZK.Proofs.C14.Lagrange
 import MidnightZK.Proofs.C14.Sets
+import MidnightZK.Proofs.C14.EndToEnd
 import MidnightZK.Model.C14.Fr
 /-!
 # C14 — KZG multi-opening: correct openings verify, any wrong claim is rejected
@@ -138,6 +139,27 @@ theorem multiopen_complete (nMax : Nat) (hn : 0 < nMax) (s x1 x2 x3 x4 : F) (dlo
         prepareGroups (fun a => a⁻¹) (verifierGroups groups) ⟨true, out.qEvals, true⟩ x1 x2 x3 x4 = .ok dual ∧
         checkLog s dlog dual = true) :=
   prepareGroups_complete nMax hn s x1 x2 x3 x4 dlog (fun a => a⁻¹) (fun _ => rfl) lagrangeSpec_inv groups hne hok
+
+/-- End-to-end completeness of the model for one-piece commitments: for every table of
+polynomials with `nMax > 0` coefficients, every non-empty duplicate-free list of
+`(polynomial, point)` queries — any number of polynomials and points, any assignment pattern, any
+order —, every secret `s` and all challenges with `x₃` different from the query points:
+`multi_open` (model) produces a proof, `multi_prepare` (model) on the verifier's queries with the
+true evaluations and that proof returns a dual MSM, and the final pairing check holds. This
+composes the grouping theorems (`sets_spec`, `prover_verifier_same_shape`) with
+`multiopen_complete`. (Chopped commitments: `multiopen_complete` + `chopped_terms_spec`.) -/
+theorem multiopen_complete_queries (nMax : Nat) (hn : 0 < nMax) (s x1 x2 x3 x4 : F) (dbg : Bool)
+    (polys : List (List F)) (hlen : ∀ p ∈ polys, p.length = nMax)
+    (pq : List (Nat × F)) (hidx : ∀ q ∈ pq, q.1 < polys.length) (hnd : pq.Nodup) (hne : pq ≠ [])
+    (hx3 : ∀ q ∈ pq, x3 ≠ q.2) :
+    ∃ out dual, multiOpen nMax polys (proverQueries polys pq) x1 x2 x3 x4 = .ok out ∧
+      multiPrepare (fun a => a⁻¹) dbg (verifierQueries polys pq) ⟨true, out.qEvals, true⟩ x1 x2 x3 x4 = .ok dual ∧
+      checkLog s (honestLog polys s out) dual = true :=
+  multiopen_complete_queries_aux nMax hn s x1 x2 x3 x4 dbg polys hlen pq hidx hnd hne hx3
+
+example : ∃ (polys : List (List ℚ)) (pq : List (Nat × ℚ)) (x3 : ℚ), (∀ p ∈ polys, p.length = 2) ∧
+    (∀ q ∈ pq, q.1 < polys.length) ∧ pq.Nodup ∧ pq ≠ [] ∧ ∀ q ∈ pq, x3 ≠ q.2 :=
+  ⟨[[1, 2], [3, 4]], [(0, 5), (1, 5), (0, 6)], 7, by simp, by simp, by decide, by simp, by simp⟩
 
 /-- Non-vacuity: a group over `ℚ` (points `1, 2`; the polynomial `3 + X`; commitment `k₀` with
 logarithm `p(s)` for `s = 7`) is well formed. -/
